@@ -3,12 +3,14 @@ package main
 // Shared generators, read schedules and fault-injecting readers / writers.
 
 import (
+	"bufio"
 	"bytes"
 	"errors"
 	"fmt"
 	"io"
 	"math"
 	"math/rand/v2"
+	"strings"
 )
 
 // byteSet is a set of byte values.
@@ -108,7 +110,9 @@ func randInt(r *rand.Rand) int {
 // hostileFloats stress float formatting and parsing.
 var hostileFloats = []float64{0, 1, -1, 0.1, -0.1, 1e-320, 5e-324, math.MaxFloat64, -math.MaxFloat64, 1e21, 1e20, 1e-7, 1e-5,
 	math.Inf(1), math.Inf(-1), math.NaN(), 1.0 / 3, 123456789.125, 3.1415, 1.07e-05, 100, 1e6, 2.5, math.SmallestNonzeroFloat64 * 3,
-	float64(math.MaxInt64), 4.35, 0.30000000000000004}
+	float64(math.MaxInt64), 4.35, 0.30000000000000004,
+	// whole numbers on and next to integer-type boundaries (a writer that prints whole numbers through an integer type)
+	1 << 31, 1<<31 - 1, -(1 << 31), 1 << 32, 1 << 53, 1<<53 + 2, -(1 << 53), 0x1p63, -0x1p63, 0x1p63 + 2048, 0x1p63 - 1024, 0x1p64, -0x1p64, 1e15, 1e16, 1e18, 1e19, 1e22, -1e19, 123456789012345678}
 
 func randFloat(r *rand.Rand, allowNonFinite bool) float64 {
 	for {
@@ -189,6 +193,7 @@ func heldMarshalCheck(k *K, marshal []func() ([]byte, error), write []func(io.Wr
 		}
 	}
 	k.Count("held_marshal_results", int64(len(held)))
+	writerZoo(k, write, all.Bytes())
 	return all.Bytes()
 }
 
@@ -333,9 +338,10 @@ func (f *faultReader) Read(p []byte) (int, error) {
 
 // limitWriter accepts exactly k bytes and then fails every write.
 type limitWriter struct {
-	k     int
-	buf   []byte
-	short bool // report short writes with a nil error... never: io.Writer contract requires an error
+	k      int
+	buf    []byte
+	short  bool // report short writes with a nil error... never: io.Writer contract requires an error
+	failed int  // number of calls that returned an error
 }
 
 func (w *limitWriter) Write(p []byte) (int, error) {
@@ -351,6 +357,7 @@ func (w *limitWriter) Write(p []byte) (int, error) {
 	n := w.k
 	w.buf = append(w.buf, p[:n]...)
 	w.k = 0
+	w.failed++
 	return n, errInjectedWrite
 }
 
@@ -362,4 +369,143 @@ func arenaFail(k *K, a *arenaT, what string) bool {
 		return true
 	}
 	return false
+}
+
+// ---------------------------------------------------------------- writers
+
+// Destinations of different dynamic types. A Write method may look at what
+// else its destination can do (io.ByteWriter, io.StringWriter, io.ReaderFrom,
+// a concrete *bufio.Writer or *bytes.Buffer) and take another path.
+type onlyWriter struct{ b *bytes.Buffer }
+
+func (w onlyWriter) Write(p []byte) (int, error) { return w.b.Write(p) }
+
+type byteStringWriter struct{ b *bytes.Buffer }
+
+func (w byteStringWriter) Write(p []byte) (int, error)       { return w.b.Write(p) }
+func (w byteStringWriter) WriteByte(c byte) error            { return w.b.WriteByte(c) }
+func (w byteStringWriter) WriteString(s string) (int, error) { return w.b.WriteString(s) }
+func (w byteStringWriter) ReadFrom(r io.Reader) (int64, error) {
+	return w.b.ReadFrom(r)
+}
+
+// shortChunkWriter accepts everything, but passes it on in pieces of at most n bytes (like a pipe).
+type shortChunkWriter struct {
+	b *bytes.Buffer
+	n int
+}
+
+func (w shortChunkWriter) Write(p []byte) (int, error) {
+	for off := 0; off < len(p); off += w.n {
+		w.b.Write(p[off:min(len(p), off+w.n)])
+	}
+	return len(p), nil
+}
+
+// writerZoo writes all records, one after the other, to destinations of many
+// kinds and compares each result with want (the concatenated MarshalText
+// results). The records are written twice to the buffered destinations before
+// the flush, so that a record starts at every fill level of the buffer.
+func writerZoo(k *K, ws []func(io.Writer) error, want []byte) {
+	if len(ws) == 0 || k.Failed() {
+		return
+	}
+	type dest struct {
+		name  string
+		w     io.Writer
+		flush func() error
+		out   func() []byte
+		twice bool
+	}
+	var ds []dest
+	mk := func(name string, f func(b *bytes.Buffer) (io.Writer, func() error), twice bool) {
+		b := &bytes.Buffer{}
+		w, fl := f(b)
+		ds = append(ds, dest{name, w, fl, b.Bytes, twice})
+	}
+	mk("a plain io.Writer", func(b *bytes.Buffer) (io.Writer, func() error) { return onlyWriter{b}, nil }, false)
+	mk("a writer with WriteByte, WriteString and ReadFrom", func(b *bytes.Buffer) (io.Writer, func() error) { return byteStringWriter{b}, nil }, false)
+	mk("a writer that forwards in 7-byte pieces", func(b *bytes.Buffer) (io.Writer, func() error) { return shortChunkWriter{b, 7}, nil }, false)
+	sizes := []int{16, 100, 4096, 1 << 16}
+	if len(want) > 1<<20 {
+		sizes = []int{4096, 1 << 16}
+	}
+	for _, size := range sizes {
+		mk(fmt.Sprintf("*bufio.Writer of size %d", size), func(b *bytes.Buffer) (io.Writer, func() error) {
+			bw := bufio.NewWriterSize(b, size)
+			return bw, bw.Flush
+		}, true)
+	}
+	var sb strings.Builder
+	ds = append(ds, dest{"*strings.Builder", &sb, nil, func() []byte { return []byte(sb.String()) }, false})
+	for _, d := range ds {
+		reps := 1
+		if d.twice {
+			reps = 2
+		}
+		for rep := 0; rep < reps; rep++ {
+			for i, w := range ws {
+				if err := w(d.w); err != nil {
+					k.Failf("write-error", "Write of record %d to %s returned %v", i, d.name, err)
+					return
+				}
+			}
+		}
+		if d.flush != nil {
+			if err := d.flush(); err != nil {
+				k.Failf("write-error", "Flush of %s returned %v", d.name, err)
+				return
+			}
+		}
+		got := d.out()
+		exp := want
+		if reps == 2 {
+			exp = append(append([]byte{}, want...), want...)
+		}
+		if !bytes.Equal(got, exp) {
+			j := 0
+			for j < len(got) && j < len(exp) && got[j] == exp[j] {
+				j++
+			}
+			k.Failf("write-destination", "%d record(s) written%s to %s give %d bytes, MarshalText gives %d; first difference at byte %d: %.60q vs %.60q",
+				len(ws), map[int]string{1: "", 2: " twice over"}[reps], d.name, len(got), len(exp), j, got[min(j, len(got)):min(len(got), j+40)], exp[min(j, len(exp)):min(len(exp), j+40)])
+			return
+		}
+		k.Count("writer_kinds_compared", 1)
+	}
+}
+
+// Failing destinations with more methods than Write: whichever method the
+// record's Write uses, once the destination has returned an error from any of
+// them, Write must return an error.
+type limitWriterB struct{ *limitWriter }
+
+func (w limitWriterB) WriteByte(c byte) error {
+	_, err := w.limitWriter.Write([]byte{c})
+	return err
+}
+
+type limitWriterS struct{ *limitWriter }
+
+func (w limitWriterS) WriteString(s string) (int, error) { return w.limitWriter.Write([]byte(s)) }
+
+type limitWriterBS struct{ *limitWriter }
+
+func (w limitWriterBS) WriteByte(c byte) error {
+	_, err := w.limitWriter.Write([]byte{c})
+	return err
+}
+func (w limitWriterBS) WriteString(s string) (int, error) { return w.limitWriter.Write([]byte(s)) }
+
+// faultDest returns a destination of the given kind (0..3) over lw.
+func faultDest(kind int, lw *limitWriter) (io.Writer, string) {
+	switch kind % 4 {
+	case 1:
+		return limitWriterB{lw}, "a writer with Write and WriteByte"
+	case 2:
+		return limitWriterS{lw}, "a writer with Write and WriteString"
+	case 3:
+		return limitWriterBS{lw}, "a writer with Write, WriteByte and WriteString"
+	}
+	return lw, "a plain io.Writer"
 }
